@@ -137,6 +137,8 @@ type BackupCase struct {
 	// kind of the i-th write (missing = put): put | putbig (a value of 1.2 MiB) | activate | delver | del.
 	// A write that cannot be made in the state at hand (nothing to activate or delete) is made a put.
 	Kinds []string `json:"kinds,omitempty"`
+	// the server starts over a database file that already exists (a restart), not a fresh one
+	Restarted bool `json:"restarted,omitempty"`
 }
 
 // c17KEK counts the uses of the key-encryption key in the backup scenarios (C05 looks at it).
@@ -186,6 +188,17 @@ func runC17Bubble(dir string, c BackupCase, info *h.Info) *h.Violation {
 	key := dbx.DummyKey()
 	counting := &c17KEK{inner: key}
 	sink := &c17Sink{}
+	if c.Restarted {
+		// the server was running before: the file exists and holds a write made just before it stopped
+		d0, err := dbx.OpenDiscard(p, key)
+		if err != nil {
+			return h.V("harness", "open: %v", err)
+		}
+		if _, err := d0.Put(dbx.Super().DB(), "written-before-the-restart", []byte("x")); err != nil {
+			return h.V("harness", "put: %v", err)
+		}
+		info.Class("server-restarted-over-an-existing-database")
+	}
 	d, err := db.Open(p, counting, audit.New(sink))
 	if err != nil {
 		return h.V("harness", "open: %v", err)
@@ -445,6 +458,7 @@ func genBackupCase(rt *rapid.T) BackupCase {
 		}
 		c.Kinds = rapid.SliceOfN(rapid.SampledFrom(pool), len(ws), len(ws)).Draw(rt, "writekinds")
 	}
+	c.Restarted = rapid.IntRange(0, 2).Draw(rt, "restarted") == 0
 	return c
 }
 
